@@ -98,9 +98,9 @@ def r2(cx):
         err = variant_edge(sw, 1)
         shut = {x.bb for x in body.calls("=shutdown")}
         passes = cfg.must_pass(err[2], cfg.returns(), shut)
-        again = t.bb in cfg.reach(err[2])
-        r = cfg.reach(err[2])
-        pan = [ps for ps in panic_sites(body) if ps["obj"].bb in r and ps["obj"].bb not in cfg.reach(variant_edge(sw, 0)[2]) and not (ps["mac"] and "print" in ps["mac"])]
+        again = t.bb in cfg.after(err)
+        r = cfg.after(err)
+        pan = [ps for ps in panic_sites(body) if ps["obj"].bb in r and ps["obj"].bb not in cfg.after(variant_edge(sw, 0)) and not (ps["mac"] and "print" in ps["mac"])]
         cx.check(passes and not again and not pan, "C06.R2", "listen-worker:handle#%d:Err-edge" % i, "%s %s" % (t.sp, body.path),
                  ("a path from handle()'s Err edge leaves the worker without Stream::shutdown; " if not passes else "") + ("the Err edge re-enters handle(); " if again else "") +
                  ("the error arm can panic (%s at %s): the worker dies before closing the connection and its busy count leaks" % (pan[0]["what"], pan[0]["sp"]) if pan else ""),
